@@ -69,6 +69,25 @@ func factsC18() {
 	add("C18", "instWatcherSubscribesBeforeStart", "Bool", subFact("run", "process.StartWith"),
 		"process_set.go (*ProcessSet).run: the watcher's trace subscription precedes process.StartWith(ctx, startFlowNode) of an instantiated process")
 
+	// 2b. Is the watcher registered with the wait group (wg.Add + go tracerProcess) before the member process is started?
+	addFact := func(recvFn, startSuffix string) string {
+		fd := funcDecl(f, "ProcessSet", recvFn)
+		if fd == nil || fd.Body == nil {
+			return ""
+		}
+		start := callPosOutsideFuncLit(fd.Body, startSuffix)
+		add := callPosOutsideFuncLit(fd.Body, "wg.Add")
+		spawn := callPosOutsideFuncLit(fd.Body, "tracerProcess")
+		if start == token.NoPos || add == token.NoPos || spawn == token.NoPos {
+			return ""
+		}
+		return boolLit(add < start && spawn < start)
+	}
+	add("C18", "wgAddBeforeStart", "Bool", addFact("StartAll", "process.StartAll"),
+		"process_set.go (*ProcessSet).StartAll: wg.Add(1) and go ps.tracerProcess(...) precede process.StartAll(ctx)")
+	add("C18", "instWgAddBeforeStart", "Bool", addFact("run", "process.StartWith"),
+		"process_set.go (*ProcessSet).run: wg.Add(1) and go ps.tracerProcess(...) precede process.StartWith(ctx, startFlowNode)")
+
 	// 3. Is close(ps.done) executed at most once? true iff every `close(<x>.done)` site is nested in a `<once>.Do(func…)`
 	//    call, or the single site sits in a goroutine spawned outside WaitUntilComplete. false iff a site is reachable
 	//    from every WaitUntilComplete call unguarded.
